@@ -35,6 +35,17 @@ CHECKS = {
          "with the OpcPackage operators, plus re-open facets (order, shapes, text, pictures, charts).",
     note="Trusted: TLC, zipfile/lxml projection, the facet reader (public read API on both sides). Bounded depth 3 (quick) / 4 (thorough) exhaustive per alphabet, simulation to depth 9-10.",
     technique="TLA+ history machine explored by TLC; histories replayed into the real library; saved packages validated by TLC"),
+ "C03": dict(
+    category="exploration", design_ref="DESIGN.md §4 C03",
+    text="SlideOps.tla is the program generator: an interpreter of the operation catalogue (about 120 public mutators over 18 object kinds "
+         "with enabling flags and documented rejections) from which TLC enumerates every ordered pair (triples in the thorough tier) of "
+         "operations per object kind x preparation (plain; PowerPoint-like siblings: extLst in spTree/cSld/bodyPr, leading a:br, "
+         "endParaRPr). The driver creates the object, applies the operations through the public API and after EVERY step logs the verdict "
+         "of the XSD monitor (lxml XMLSchema over the transitional schemas after markup-compatibility preprocessing) for every slide, chart "
+         "and notes part, and for all parts after save/re-open; TLC evaluates AllPartsValid / RejectedKeepsValidity / RejectedAsDocumented "
+         "on the logged error signatures with baseline subtraction.",
+    note="Validity is judged by the monitor, not by TLC (no TLA+ model of ISO/IEC 29500). Catalogue is hand-written; unused operations fail the run as vacuous; unexpected exceptions are listed in the evidence. Ordering/cardinality is additionally decided exhaustively by C10.",
+    technique="TLA+ catalogue interpreter as program generator (TLC) + XSD monitor on every step + TLC clause evaluation on logged verdicts"),
  "C04": dict(
     category="model_checking", design_ref="DESIGN.md §4 C04",
     text="TextBody.tla: text as sequences of character tokens (15 classes x variants: NL, VT, TAB, CR, other C0, blanks, markup, astral, "
@@ -54,6 +65,25 @@ CHECKS = {
          "and not reassigned while referenced, part names unique, slides named slide1..n once accessed, earlier lookups stable.",
     note="Trusted: TLC, the lxml-based observation (never via prs.slides). Known finding: turbo mode + group/freeform allocator collision (experimental feature).",
     technique="TLA+ allocator transcription checked by TLC + history replay + TLC trace validation on observed ids"),
+ "C07": dict(
+    category="model_checking", design_ref="DESIGN.md §4 C07",
+    text="ChartData.tla: property layer (XsdValid/XsdKept, OnePlotFamily, Names/Vals/CatsAsGiven, LevelsReadable, Idx/OrderUnique, "
+         "FmtSurvives, PlotsSurvive, OutsideUnchanged, ReopenSame) and an Impl layer transcribing the writers, _adjust_ser_count / "
+         "_add_cloned_sers / _trim_ser_count_by and next_idx/next_order. MC_ChartData visits every history AddChart(8 families) / "
+         "Load(corpus chart), Format prefix, <= L ReplaceData over all data shapes, SaveReopen; judges Impl with the property layer and "
+         "emits every history. The driver replays them (all 29 writable types, corpus decks, widened 26/50-series copies) and TLC "
+         "validates every observed step.",
+    note="Trusted: TLC, lxml XMLSchema on dml-chart.xsd after MCE preprocessing, masked canonical-XML equality tokens. Pie = one series. Emptied charts not judged further.",
+    technique="TLA+ two-layer state machine, TLC history enumeration with design-level refinement check, replay, TLC trace validation"),
+ "C08": dict(
+    category="model_checking", design_ref="DESIGN.md §4 C08",
+    text="ChartSheet.tla gives the worksheet as a function of the data shape (Cell, CatRef/NameRef/ValRef/XRef/YRef/SizeRef, bijective "
+         "base-26 ColLetters with inverse, Excel serial dates). TLC proves the column bijection on 1..16384 and, per enumerated shape, "
+         "disjoint ranges, Size = ptCount and accumulated XY/bubble offsets, then writes the shapes. Each shape is built by add_chart and "
+         "by replace_data (also on corpus charts); the driver's own xlsx reader and c:f parser record references, point counts, cached "
+         "points and cells; TLC validates RefSizeIsPtCount, PointEqualsCell, CellHoldsData, ColumnLetters (RefsAsSpec drift only).",
+    note="Trusted: TLC, the zipfile+lxml xlsx reader. Numbers compared as canonical decimal text. 1900 date system only.",
+    technique="TLA+ function spec, whole-domain TLC theorems, spec->code->spec conformance validated by TLC"),
  "C10": dict(
     category="model_checking", design_ref="DESIGN.md §4 C10",
     text="ChildOrder.tla: Impl layer transcribes xmlchemy (first_child_found_in, insert_element_before, remove_all, get-or-add, change-to); "
